@@ -296,7 +296,7 @@ func c16Spice(r *RNG, tr T) {
 		if len(l) == 0 {
 			continue
 		}
-		switch r.Intn(6) {
+		switch r.Intn(7) {
 		case 0:
 			l = append(l, l[r.Intn(len(l))])
 		case 1:
@@ -305,6 +305,12 @@ func c16Spice(r *RNG, tr T) {
 			}
 		case 2:
 			l = append([]interface{}{nil}, l...)
+		case 5:
+			// addressees of the same document: ids that are only a fragment
+			for _, fr := range []string{"#alice", "#bob", "#alice"}[:2+r.Intn(2)] {
+				pos := r.Intn(len(l) + 1)
+				l = append(l[:pos:pos], append([]interface{}{T{"iri": fr}}, l[pos:]...)...)
+			}
 		case 4:
 			// a mention without an id of its own whose href is the id of another entry: two different things
 			if id := treeID(l[r.Intn(len(l))]); id != "" {
